@@ -15,6 +15,8 @@ branch condition holds.
 import Iso8583.Gen.GuardsReturns
 import Iso8583.Model.Prefix
 import Iso8583.Model.Field
+import Iso8583.Model.Message
+import Iso8583.Model.Bitmap
 import Iso8583.Props.GuardsComposite
 import Iso8583.Lemmas.GuardFns
 import Iso8583.Lemmas.GuardTactics
@@ -409,6 +411,153 @@ theorem composite_unpack_ok_returns (s : CompSpec) (subs : List (Tag × Field)) 
   · simp only [composite_Unpack_slices]
     exact sliceOf_eq data offset dataLen
 
+/-! ### the running offset of `Message.unpack` -/
+
+/-- an assignment `(keep, delta)` applied to the old value -/
+def applyUpd (u : Int × Int) (old : Int) : Int := u.1 * old + u.2
+
+open MsgSpec in
+/-- the element loop: after a data element is decoded the offset has moved by exactly the bytes
+that element reported (the third assignment to `off` in the source), and the element was decoded
+from `src[off:]` (the second slice expression) -/
+theorem scan_set_translated (spec : MsgSpec) (bm : Bitmap) (n i : Nat) (src : Bytes) (off : Nat)
+    (acc : List (Nat × Value)) (f : Field) (v : Value) (read : Nat)
+    (hp : bm.isPresenceBit i = false) (hs : bm.isSet i = true) (hf : lookupId i spec.fields = some f)
+    (ho : ¬ off > src.length)
+    (hu : ∃ lo, (message_unpack_slices off read)[1]? = some [lo, -1] ∧ f.unpack (src.drop lo.toNat) = .ok (v, read)) :
+    ∃ u, (message_unpack_updates_off off read)[2]? = some u ∧
+      scan spec bm (n + 1) i src off acc = scan spec bm n (i + 1) src (applyUpd u off).toNat (acc ++ [(i, v)]) := by
+  obtain ⟨lo, hlo, hv⟩ := hu
+  simp only [message_unpack_slices, List.getElem?_cons_succ, List.getElem?_cons_zero, Option.some.injEq, List.cons.injEq, and_true] at hlo
+  subst hlo
+  have h0 : ((off : Int)).toNat = off := by omega
+  rw [h0] at hv
+  refine ⟨(1, (read : Int)), rfl, ?_⟩
+  have h1 : (applyUpd (1, (read : Int)) (off : Int)).toNat = off + read := by
+    simp only [applyUpd]; omega
+  simp [scan, hp, hs, hf, ho, hv, h1]
+
+open MsgSpec in
+/-- the prologue: the MTI sets the offset to the bytes it read, the bitmap is decoded from
+`src[off:]` and adds the bytes it read, and the element loop starts there -/
+theorem unpack_prologue_translated (spec : MsgSpec) (src : Bytes) (mtiV : Value) (r1 : Nat) (bm : Bitmap) (r2 : Nat)
+    (hm : spec.mti.unpack src = .ok (mtiV, r1)) (hle : ¬ r1 > src.length) :
+    ∃ u0 u1 lo, (message_unpack_updates_off 0 r1)[0]? = some u0 ∧
+      (message_unpack_updates_off 0 r2)[1]? = some u1 ∧
+      (message_unpack_slices (applyUpd u0 0) 0)[0]? = some [lo, -1] ∧
+      (Bitmap.unpack spec.bitmap.enc spec.bitmap.pref (Bitmap.reset spec.bitmap.specLen spec.bitmap.auto) (src.drop lo.toNat) = .ok (bm, r2) →
+        MsgSpec.unpack spec src =
+          match scan spec bm (bm.len - 1) 2 src (applyUpd u1 (applyUpd u0 0)).toNat [] with
+          | .err p => .err p
+          | .panic => .panic
+          | .ok (fields, off) => .ok ({ mti := some mtiV, fields := fields }, off)) := by
+  refine ⟨(0, (r1 : Int)), (1, (r2 : Int)), applyUpd (0, (r1 : Int)) 0, rfl, rfl, rfl, ?_⟩
+  have h0 : (applyUpd (0, (r1 : Int)) 0).toNat = r1 := by simp only [applyUpd]; omega
+  have h1 : (applyUpd (1, (r2 : Int)) (applyUpd (0, (r1 : Int)) 0)).toNat = r1 + r2 := by simp only [applyUpd]; omega
+  intro hb
+  rw [h0] at hb
+  simp only [MsgSpec.unpack, hm, hle, if_false, hb, h1]
+  rfl
+
+/-! ### the running offset of the composite loops -/
+
+/-- `unpackSubfieldsByTag`, a known tag: the offset moves by the bytes of the tag (second
+assignment to `offset`) and then by the bytes the subfield reported (fourth assignment) -/
+theorem tlv_known_step_translated (t : TagSpec) (enc : Enc) (isBer : Bool) (known : Tag → Bool)
+    (dispatch : Tag → Bytes → UR (Value × Nat)) (fuel : Nat) (data : Bytes) (offset : Nat) (acc : List (Tag × Value))
+    (tagBytes : Bytes) (read : Nat) (v : Value) (read' : Nat)
+    (hlt : ¬ offset ≥ data.length)
+    (hd : Enc.decode enc (data.drop offset) t.len = .ok (tagBytes, read))
+    (hk : known (t.pad.unpad tagBytes) = true) (hle : ¬ offset + read > data.length)
+    (hv : dispatch (t.pad.unpad tagBytes) (data.drop (offset + read)) = .ok (v, read'))
+    (hp : ¬ (read = 0 ∧ read' = 0)) :
+    ∃ u1 u3, (tlv_unpackSubfieldsByTag_updates_offset offset data.length 0 read 0 0)[1]? = some u1 ∧
+      (tlv_unpackSubfieldsByTag_updates_offset offset data.length 0 read' 0 0)[3]? = some u3 ∧
+      tlvLoop t enc isBer known dispatch (fuel + 1) data offset acc =
+        tlvLoop t enc isBer known dispatch fuel data (applyUpd u3 (applyUpd u1 offset)).toNat
+          (insertKV (t.pad.unpad tagBytes) v acc) := by
+  refine ⟨(1, (read : Int)), (1, (read' : Int)), rfl, rfl, ?_⟩
+  have h1 : (applyUpd (1, (read' : Int)) (applyUpd (1, (read : Int)) (offset : Int))).toNat = offset + read + read' := by
+    simp only [applyUpd]; omega
+  rw [h1]
+  simp only [tlvLoop, hlt, if_false, hd, hk, Bool.not_true, Bool.false_eq_true, hle, hv, hp]
+
+/-- `unpackSubfieldsByTag`, an unknown tag that is skipped: the offset moves by the bytes of the
+tag and then by the announced length plus the bytes of its prefix (third assignment) -/
+theorem tlv_skip_step_translated (t : TagSpec) (enc : Enc) (isBer : Bool) (known : Tag → Bool)
+    (dispatch : Tag → Bytes → UR (Value × Nat)) (fuel : Nat) (data : Bytes) (offset : Nat) (acc : List (Tag × Value))
+    (tagBytes : Bytes) (read : Nat) (fieldLength read' : Nat)
+    (hlt : ¬ offset ≥ data.length)
+    (hd : Enc.decode enc (data.drop offset) t.len = .ok (tagBytes, read))
+    (hk : known (t.pad.unpad tagBytes) = false)
+    (hs : (t.skipUnknown && (isBer || t.prefUnknown.isSome)) = true) (hle : ¬ offset + read > data.length)
+    (hl : (match t.prefUnknown with | some p => (p, maxInt) | Option.none => (Pref.berTLV, 0)).1.decodeLength
+            (match t.prefUnknown with | some p => (p, maxInt) | Option.none => (Pref.berTLV, 0)).2 (data.drop (offset + read)) = .ok (fieldLength, read'))
+    (hfit : ¬ (fieldLength > data.length - (offset + read) - read' ∨ offset + read + read' > data.length)) :
+    ∃ u1 u2, (tlv_unpackSubfieldsByTag_updates_offset offset data.length 0 read 0 0)[1]? = some u1 ∧
+      (tlv_unpackSubfieldsByTag_updates_offset offset data.length fieldLength read' 0 0)[2]? = some u2 ∧
+      tlvLoop t enc isBer known dispatch (fuel + 1) data offset acc =
+        tlvLoop t enc isBer known dispatch fuel data (applyUpd u2 (applyUpd u1 offset)).toNat acc := by
+  refine ⟨(1, (read : Int)), (1, (fieldLength : Int) + (read' : Int)), rfl, rfl, ?_⟩
+  have h1 : (applyUpd (1, (fieldLength : Int) + (read' : Int)) (applyUpd (1, (read : Int)) (offset : Int))).toNat = offset + read + fieldLength + read' := by
+    simp only [applyUpd]; omega
+  rw [h1]
+  cases hpu : t.prefUnknown with
+  | none =>
+    simp only [hpu] at hl
+    simp only [hpu, Option.isSome_none, Bool.or_false, Bool.and_eq_true] at hs
+    simp [tlvLoop, hlt, hd, hk, hs.1, hs.2, hle, hpu, hl, hfit]
+  | some p =>
+    simp only [hpu] at hl
+    simp only [hpu, Option.isSome_some, Bool.or_true, Bool.and_true] at hs
+    simp [tlvLoop, hlt, hd, hk, hs, hle, hpu, hl, hfit]
+
+/-- `unpackSubfieldsByBitmap`: a set bit moves the offset by the bytes its subfield reported, and
+the subfield was decoded from `data[off:]` -/
+theorem bitmapScan_set_translated (bm : Bitmap) (dispatch : Tag → Bytes → Option (UR (Value × Nat)))
+    (n i : Nat) (data : Bytes) (off : Nat) (acc : List (Tag × Value)) (v : Value) (read : Nat)
+    (hs : bm.isSet i = true) (ho : ¬ off > data.length)
+    (hv : dispatch (natToDec i) (data.drop off) = some (.ok (v, read))) :
+    ∃ u, (bitmapped_unpackSubfieldsByBitmap_updates_off off read).getLast? = some u ∧
+      bitmapScan bm dispatch (n + 1) i data off acc =
+        bitmapScan bm dispatch n (i + 1) data (applyUpd u off).toNat (acc ++ [(natToDec i, v)]) := by
+  refine ⟨(1, (read : Int)), rfl, ?_⟩
+  have h1 : (applyUpd (1, (read : Int)) (off : Int)).toNat = off + read := by simp only [applyUpd]; omega
+  rw [h1]
+  simp [bitmapScan, hs, ho, hv]
+
+/-- `unpackSubfields` (positional composite): the subfield is decoded from `data[offset:]`, the
+offset moves by the bytes it reported, and the loop is left exactly under the source's `break`
+condition (a variable-length composite whose bytes are used up), read with the NEW offset -/
+theorem positional_step_translated (tag : Tag) (f : Field) (rest : List (Tag × Field)) (data : Bytes) (isVar : Bool)
+    (offset : Nat) (acc : List (Tag × Value)) (v : Value) (read : Nat) (ho : ¬ offset > data.length)
+    (hv : f.unpack (data.drop offset) = .ok (v, read)) :
+    ∃ u, (positional_unpackSubfields_updates_offset offset read data.length isVar true).getLast? = some u ∧
+      unpackPositional ((tag, f) :: rest) data isVar offset acc =
+        if (positional_unpackSubfields_breaks (applyUpd u offset) read data.length isVar true).any id
+        then .ok (acc ++ [(tag, v)], (applyUpd u offset).toNat)
+        else unpackPositional rest data isVar (applyUpd u offset).toNat (acc ++ [(tag, v)]) := by
+  refine ⟨(1, (read : Int)), rfl, ?_⟩
+  have h1 : (applyUpd (1, (read : Int)) (offset : Int)).toNat = offset + read := by simp only [applyUpd]; omega
+  have h2 : applyUpd (1, (read : Int)) (offset : Int) = ((offset + read : Nat) : Int) := by simp only [applyUpd]; omega
+  rw [h1, h2]
+  simp only [unpackPositional, ho, if_false, hv, positional_unpackSubfields_breaks, List.any_cons, List.any_nil,
+    Bool.or_false, id, Bool.not_true, Bool.not_false, Bool.true_and]
+  by_cases hb : offset + read ≥ data.length
+  · have hb' : (((offset + read : Nat) : Int) ≥ (data.length : Int)) := by omega
+    cases isVar <;> simp [hb] <;> intro hh <;> omega
+  · have hb' : ¬ (((offset + read : Nat) : Int) ≥ (data.length : Int)) := by omega
+    cases isVar <;> simp [hb] <;> intro hh <;> omega
+
+/-- `Bitmap.Unpack`: every block adds the bytes the decoder reported to the total (the second
+assignment to `read`), and the next block is decoded from `data[read:]` -/
+theorem bitmap_unpack_read_translated (read r : Nat) :
+    ∃ u, (bitmap_Unpack_updates_read read r 0).getLast? = some u ∧ (applyUpd u read).toNat = read + r ∧
+      (bitmap_Unpack_updates_read read r 0).head? = some (0, 0) ∧
+      bitmap_Unpack_slices read r 0 = [[(read : Int), -1]] := by
+  refine ⟨(1, (r : Int)), rfl, ?_, rfl, rfl⟩
+  simp only [applyUpd]; omega
+
 /-! ### non-vacuity: concrete inputs that meet the hypotheses -/
 
 example : decodeLength (.var .ascii 2) 99 [0x31, 0x32, 0x41] = .ok (12, 2) := by decide
@@ -419,5 +568,10 @@ example : firstRet (bcd_Decode_returns 3 2) = some [2] := by decide
 example : one (firstRet (track2_Unpack_args_spec_Enc_Decode 37 1 0 0 true)) = some 38 ∧
     one (firstRet (track2_Unpack_args_spec_Enc_Decode 37 1 0 0 false)) = some 37 ∧
     one (firstRet (track2_Unpack_args_spec_Enc_Decode 36 1 0 0 true)) = some 36 := by decide
+
+example : (message_unpack_updates_off 0 4).map (fun u => applyUpd u 10) = [4, 14, 14] := by decide
+example : (positional_unpackSubfields_breaks 6 2 6 true true).any id = true ∧
+    (positional_unpackSubfields_breaks 5 2 6 true true).any id = false ∧
+    (positional_unpackSubfields_breaks 6 2 6 false true).any id = false := by decide
 
 end Iso8583.GuardsReturns
